@@ -680,7 +680,7 @@ def mk_samplers(ctx, K):
         return [
             ('identity', lambda rng: np.eye(3)),
             ('inside-eye-thr', lambda rng: rot_from_axis_angle(axis(rng), rng.uniform(0.05, 0.3) * ke * EPS)),
-            ('acos-rounds-to-zero', lambda rng: rot_from_axis_angle(axis(rng), log_uniform(rng, 2 * ke * EPS, 5e-9))),
+            ('general-tiny', lambda rng: rot_from_axis_angle(axis(rng), log_uniform(rng, 2 * ke * EPS, 5e-9))),
             ('general-small', lambda rng: rot_from_axis_angle(axis(rng), log_uniform(rng, 3e-8, 1e-2))),
             ('general-mid', lambda rng: rot_from_axis_angle(axis(rng), rng.uniform(1e-2, math.pi - 1e-2))),
             ('general-near-pi', lambda rng: rot_from_axis_angle(axis(rng), math.pi - log_uniform(rng, 2 * half_band, 1e-2))),
@@ -1067,10 +1067,7 @@ def oracle(ctx, K):
                     ctx.fail(f'oracle:log3:{dim}:not-real-algebra-shape', f"trlog returns shape/dtype {Lt.shape}/{Lt.dtype}, {Lm.shape}/{Lm.dtype}", rp)
                     continue
                 if not (np.all(np.isfinite(Lt)) and np.all(np.isfinite(Lm))):
-                    with np.errstate(all='ignore'):
-                        acos0 = br == 'general' and math.acos(min(1.0, max(-1.0, (np.trace(R) - 1) / 2))) == 0.0
-                    key = 'general-branch:acos-rounds-to-zero:nonfinite' if acos0 else f'{br}-branch:nonfinite'
-                    ctx.fail(f'oracle:log3:{key}', f"trlog returns non-finite entries for a rotation by {th:g} rad ({br} branch)", rp)
+                    ctx.fail(f'oracle:log3:{br}-branch:nonfinite', f"trlog returns non-finite entries for a rotation by {th:g} rad ({br} branch)", rp)
                     continue
                 # algebra form: matrix form = skewa / skew of the twist form (exactly skew, last row zero)
                 ref_m = skew_np(Lt) if dim == 'so3' else skewa_np(Lt)
@@ -1079,11 +1076,7 @@ def oracle(ctx, K):
                 mag = float(np.linalg.norm(Lt[-3:]))
                 worst('log3:rotation-magnitude-minus-pi', max(0.0, mag - math.pi))
                 if mag > math.pi + 1e-9:
-                    if br == 'general' and d < 1e-3 and mag - math.pi <= math.pi * 50 * EPS / (d * d):
-                        # same root cause as the near-pi accuracy loss: theta and sin(theta) are inconsistent
-                        ctx.fail('oracle:explog3:general-branch:near-pi:inaccurate', f"rotation magnitude of the log is {mag!r} > pi for a rotation by pi-{d:.3g}", rp)
-                    else:
-                        ctx.fail(f'oracle:log3:{dim}:{br}-branch:magnitude-exceeds-pi', f"rotation magnitude of the log is {mag!r} > pi", rp)
+                    ctx.fail(f'oracle:log3:{dim}:{br}-branch:magnitude-exceeds-pi', f"rotation magnitude of the log is {mag!r} > pi", rp)
                 X2 = call(f'explog3:{dim}:exp-of-log', lambda: base.trexp(Lt), rp)
                 if X2 is None:
                     continue
@@ -1092,12 +1085,7 @@ def oracle(ctx, K):
                 if e <= TOL:
                     worst(f'explog3:{dim}:{br}', e)
                     continue
-                if br == 'general' and d < 1e-3 and e <= 50 * EPS / (d * d):
-                    key = 'general-branch:near-pi:inaccurate'
-                elif br == 'half-turn' and e <= 2 * math.sqrt(100 * EPS):   # the KNOWN band (fixed, not the regenerated threshold)
-                    key = 'half-turn-branch:band-error'
-                else:
-                    key = f'{br}-branch:error'
+                key = f'{br}-branch:error'     # (the acos / exact-half-turn defects repaired by 84bd1d7 would reappear here)
                 ctx.fail(f'oracle:explog3:{key}', f"exp(log T) differs from T by {e:.3g} (rel. to max(1,|t|)) for a rotation by pi-{d:.3g} ({br} branch)", dict(rp, error=e))
                 # independent reference as well (does not depend on trexp)
             if i % 10 == 0 and br == 'general' and 1e-6 < th < math.pi - 1e-2:
@@ -1122,33 +1110,19 @@ def oracle(ctx, K):
                 ctx.count(f'oracle:logexp3:{dim}')
                 d = math.pi - th
                 if not np.all(np.isfinite(L)):
-                    with np.errstate(all='ignore'):
-                        acos0 = br == 'general' and math.acos(min(1.0, max(-1.0, (np.trace(X[:3, :3]) - 1) / 2))) == 0.0
-                    key = 'general-branch:acos-rounds-to-zero:nonfinite' if acos0 else f'{br}-branch:nonfinite'
-                    ctx.fail(f'oracle:log3:{key}', f"trlog(trexp(S)) is non-finite for |w| = {th:g}", rp)
+                    ctx.fail(f'oracle:log3:{br}-branch:nonfinite', f"trlog(trexp(S)) is non-finite for |w| = {th:g}", rp)
                     continue
                 e = maxerr(L, Sv) / sc
                 if e <= TOL:
                     worst(f'logexp3:{dim}', e)
-                elif br == 'general' and d < 1e-3 and e <= 50 * EPS / (d * d):
-                    ctx.fail('oracle:explog3:general-branch:near-pi:inaccurate', f"log(exp S) differs from S by {e:.3g} for |w| = pi-{d:.3g}", dict(rp, error=e))
                 else:
                     ctx.fail(f'oracle:logexp3:{dim}:{br}-branch:error', f"log(exp S) differs from S by {e:.3g} for |w| = pi-{d:.3g} ({br} branch)", dict(rp, error=e, L=L.tolist()))
 
     # ------------------------------------------------------------------ 2D
     def twist2(X):
-        """trlog2(X, twist=True).  Since transl2 raises for a bad argument (fix c16e6a7), vexa of the COMPLEX matrix
-        that scipy.linalg.logm may return raises ValueError('bad argument'): that outcome, together with a complex
-        matrix form, is the known complex-logm finding -> ('complex', None).  Anything else propagates."""
-        try:
-            with np.errstate(all='ignore'):
-                return 'ok', base.trlog2(X, check=False, twist=True)
-        except ValueError:
-            with np.errstate(all='ignore'):
-                Lm_ = np.asarray(base.trlog2(X, check=False, twist=False))
-            if np.iscomplexobj(Lm_):
-                return 'complex', None
-            raise
+        """trlog2(X, twist=True) (closed form since c4462a7: must be a real float vector for every SE(2)/SO(2) input)"""
+        with np.errstate(all='ignore'):
+            return 'ok', base.trlog2(X, check=False, twist=True)
 
     def two_d(n):
         for i in range(n):
@@ -1192,23 +1166,10 @@ def oracle(ctx, K):
                 Lt = call(f'log2:{dim}:twist-form', lambda: twist2(X), rp)
                 if Lm is None or Lt is None:
                     continue
-                Lm, Lt = np.asarray(Lm), (None if Lt[0] == 'complex' else np.asarray(Lt[1]))
+                Lm, Lt = np.asarray(Lm), np.asarray(Lt[1])
                 ctx.count(f'oracle:log2:{dim}:structure')
-                if Lt is not None and Lt.dtype == object:
-                    ctx.fail(f'oracle:log2:{dim}:twist-form:object-array', f"trlog2(twist=True) returns an object array {Lt!r}", rp)
-                    continue
-                cplx = np.iscomplexobj(Lm) or Lt is None or np.iscomplexobj(Lt)
-                if cplx:
-                    # scipy.linalg.logm kept a complex result (the twist form is then complex, or vexa raises ValueError)
-                    Lre = np.real(Lm)
-                    small_im = float(np.max(np.abs(np.imag(Lm)))) <= 1e-6 * sc
-                    ok_re = maxerr(base.trexp2(np.r_[Lre[:2, 2], Lre[1, 0]]) if dim == 'se2' else base.trexp2([Lre[1, 0]]), X) / sc <= TOL
-                    if small_im and ok_re:
-                        ctx.fail('oracle:log2:logm-complex-result', f"trlog2 returns a complex array (twist form: complex or ValueError) for rotation pi-{d:.3g}, |t|={np.linalg.norm(t) if dim == 'se2' else 0:.3g}", rp)
-                    elif d < 1e-7:
-                        ctx.fail('oracle:log2:half-turn:logm-not-a-real-logarithm', f"trlog2 of a rotation by pi-{d:.3g}: complex result whose real part is not a logarithm", rp)
-                    else:
-                        ctx.fail(f'oracle:log2:{dim}:complex-and-wrong', f"trlog2 complex result with wrong real part, rotation pi-{d:.3g}", rp)
+                if np.iscomplexobj(Lm) or np.iscomplexobj(Lt) or Lm.dtype.kind != 'f' or Lt.dtype.kind != 'f':
+                    ctx.fail(f'oracle:log2:{dim}:not-a-real-array', f"trlog2 returns dtype {Lm.dtype}/{Lt.dtype} for rotation pi-{d:.3g}, |t|={np.linalg.norm(t) if dim == 'se2' else 0:.3g}", rp)
                     continue
                 if not (np.all(np.isfinite(Lm)) and np.all(np.isfinite(Lt))):
                     ctx.fail(f'oracle:log2:{dim}:nonfinite', "trlog2 returns non-finite entries", rp)
@@ -1226,8 +1187,6 @@ def oracle(ctx, K):
                 e = maxerr(X2, X) / sc
                 if e <= TOL:
                     worst(f'explog2:{dim}', e)
-                elif d < 1e-7:
-                    ctx.fail('oracle:log2:half-turn:logm-not-a-real-logarithm', f"exp(trlog2 T) differs from T by {e:.3g} for a rotation by pi-{d:.3g}", dict(rp, error=e))
                 else:
                     ctx.fail(f'oracle:explog2:{dim}:error', f"exp(trlog2 T) differs from T by {e:.3g}, rotation pi-{d:.3g}", dict(rp, error=e))
             # ---- log(exp S) = S for |w| <= pi - 1e-6
@@ -1235,17 +1194,10 @@ def oracle(ctx, K):
                 rp = {'law': '2D log(exp S) = S', 'S_hex': HX(tw)}
                 L = call('logexp2:se2:log', lambda: twist2(T), rp)
                 if L is not None:
-                    L = None if L[0] == 'complex' else np.asarray(L[1])
+                    L = np.asarray(L[1])
                     ctx.count('oracle:logexp2:se2')
-                    if L is not None and L.dtype == object:
-                        ctx.fail('oracle:log2:se2:twist-form:object-array', f"trlog2(twist=True) returns an object array {L!r}", rp)
-                    elif L is None or np.iscomplexobj(L):
-                        Lm = np.asarray(base.trlog2(T, check=False))
-                        Lr = np.real(np.r_[Lm[:2, 2], Lm[1, 0]])
-                        if maxerr(Lr, tw) / scale <= TOL and float(np.max(np.abs(np.imag(Lm)))) <= 1e-6 * scale:
-                            ctx.fail('oracle:log2:logm-complex-result', "trlog2(trexp2(S)) is complex (twist form: complex or ValueError)", rp)
-                        else:
-                            ctx.fail('oracle:logexp2:se2:complex-and-wrong', "trlog2(trexp2(S)) complex with wrong real part", rp)
+                    if L.dtype.kind != 'f':
+                        ctx.fail('oracle:log2:se2:not-a-real-array', f"trlog2(trexp2(S), twist=True) has dtype {L.dtype}", rp)
                     else:
                         check('logexp2:se2', L, tw, scale, rp)
 
